@@ -93,8 +93,34 @@ let mode_flow () =
   done with End_of_file -> ());
   flush_out ()
 
+(* ---------------------------------------------------------------- mode rx : receive path, debug-mode queue *)
+let mode_rx () =
+  let rs = ref rx_init and q = ref [] and faulted = ref false in
+  (try while true do
+    let line = input_line stdin in
+    match split_ws line with
+    | [] -> ()
+    | "case" :: id :: _ -> out ("case " ^ id); faulted := false
+    | "start" :: _ -> rs := rx_init; q := []; out "start 0"
+    | ("rx" | "rxnowait") :: h :: _ ->
+        let (r1, items) = rx_run !rs (unhex h) in
+        rs := r1;
+        List.iter (fun it -> match it with
+          | Delivered m -> if int_of_n m.m_type <> 0x8e then q := m.m_raw :: !q
+          | Dropped -> ()
+          | Faulted _ -> if not !faulted then (faulted := true; out "model-fault")) items
+    | "quiesce" :: _ -> ()
+    | "drain" :: _ -> List.iter (fun m -> out ("q " ^ hex m)) (List.rev !q); q := []; out "q none"
+    | "discard" :: _ -> q := []
+    | "mark" :: r -> out ("mark " ^ String.concat " " r)
+    | c :: _ when String.length c > 0 && c.[0] = '#' -> ()
+    | c :: _ -> out ("unknown-command " ^ c)
+  done with End_of_file -> ());
+  flush_out ()
+
 let () =
   match Array.to_list Sys.argv with
+  | _ :: "rx" :: _ -> mode_rx ()
   | _ :: "flow" :: _ -> mode_flow ()
   | _ :: "tx" :: _ -> mode_tx ()
   | _ :: "tx-oracle" :: _ -> mode_tx_oracle ()
